@@ -74,7 +74,7 @@ RIGHT_KIND = {'Encrypt': ('SYMMETRIC_KEY',), 'Decrypt': ('SYMMETRIC_KEY',), 'Sig
 NEEDED_BIT = {'Encrypt': 'ENCRYPT', 'Decrypt': 'DECRYPT', 'Sign': 'SIGN', 'SignatureVerify': 'VERIFY',
               'MAC': 'MAC_GENERATE', 'GetWrap': 'WRAP_KEY', 'DeriveKey': 'DERIVE_KEY'}
 ATTRS = ['Object Type', 'State', 'Cryptographic Usage Mask']
-PSEUDO = ('Version', 'Restart', 'Batch')
+PSEUDO = ('Version', 'Restart', 'Batch', 'Clock')
 VERSIONS = [(1, 2), (1, 3), (1, 4), (2, 0)]       # the versions under which every operation of the alphabet exists
 ALLBITS = sum(e.value for e in M)
 
@@ -211,7 +211,8 @@ class Runner:
         if kind == 'Activate':
             return kdrv.activate(u(op[1]))
         if kind == 'Revoke':
-            return kdrv.revoke(u(op[1]), CODES[op[2]])
+            extra = op[3] if len(op) > 3 else None      # optional (compromise occurrence date, message): ignored by the code
+            return kdrv.revoke(u(op[1]), CODES[op[2]], message=(extra[1] if extra else None), date=(extra[0] if extra else None))
         if kind == 'Destroy':
             return kdrv.destroy(u(op[1]))
         flavour = op[3] if len(op) > 3 and kind in ('Encrypt', 'Decrypt', 'Sign', 'SignatureVerify') else 'good'
@@ -339,6 +340,9 @@ class Runner:
             elif op[0] == 'Restart':        # a new KmipEngine object on the same database
                 self.eng.restart()
                 self.instrument()
+                n += 1
+            elif op[0] == 'Clock':          # the engine's clock moves on
+                self.eng.clock.t += int(op[1])
                 n += 1
             elif op[0] == 'Batch':
                 group = ops[n + 1:n + 1 + op[1]]
@@ -648,7 +652,8 @@ def grid():
                             ver = VERSIONS[len(out) % len(VERSIONS)]
                             out.append(('grid', [('Version', ver)] + setup + [tst]))
                 # lifecycle operations after every route
-                for tst in [('Activate', 0), ('Destroy', 0)] + [('Revoke', 0, c) for c in CODES]:
+                for tst in ([('Activate', 0), ('Destroy', 0)] + [('Revoke', 0, c) for c in CODES]
+                            + [('Revoke', 0, c, (d, 'm')) for c in (KC, CA, CESS) for d in (0, 4000000000)]):
                     out.append(('grid', [('Register', t, FULL)] + route + [tst, ('Activate', 0), ('Destroy', 0)]))
     return out
 
@@ -696,8 +701,8 @@ def random_history(rng, length):
         return rng.choice(c) if c and rng.random() < 0.8 else pick()
     while len(ops) < length:
         r = rng.random()
-        if objs and rng.random() < 0.03:
-            ops.append(('Restart',) if rng.random() < 0.5 else ('Version', rng.choice(VERSIONS)))
+        if objs and rng.random() < 0.05:
+            ops.append(rng.choice([('Restart',), ('Version', rng.choice(VERSIONS)), ('Clock', rng.choice([1, 3600, 86400 * 400, 86400 * 4000]))]))
             length += 1
             continue
         if len(objs) < 2 or (r < 0.12 and len(objs) < 7):
@@ -741,7 +746,10 @@ def random_history(rng, length):
         elif r < 0.30:
             ops.append(('Activate', pick()))
         elif r < 0.44:
-            ops.append(('Revoke', pick(), rng.choice(list(CODES))))
+            if rng.random() < 0.3:      # with a compromise occurrence date (past or future of the engine's clock) and a message
+                ops.append(('Revoke', pick(), rng.choice(list(CODES)), (rng.choice([0, 1500000000, 1600000000, 4000000000]), 'reason text')))
+            else:
+                ops.append(('Revoke', pick(), rng.choice(list(CODES))))
         elif r < 0.50:
             ops.append(('Destroy', pick()))
         elif r < 0.58:
